@@ -391,8 +391,18 @@ def run_lines(cmd, lines, timeout=600, env=None):
     if env:
         e.update(env)
     try:
+        pre = None
+        if os.path.basename(cmd[0]) == "driver":
+            # the extracted list functions are not tail-recursive: give the model a deep stack
+            def pre():
+                import resource
+                soft, hard = resource.getrlimit(resource.RLIMIT_STACK)
+                want = 8 << 30
+                if hard != resource.RLIM_INFINITY:
+                    want = min(want, hard)
+                resource.setrlimit(resource.RLIMIT_STACK, (want, hard))
         p = subprocess.run(cmd, input=inp, stdout=subprocess.PIPE, stderr=subprocess.PIPE,
-                           timeout=timeout, text=True, errors="replace", env=e)
+                           timeout=timeout, text=True, errors="replace", env=e, preexec_fn=pre)
         return p.returncode, p.stdout.splitlines(), p.stderr
     except subprocess.TimeoutExpired as ex:
         so = ex.stdout or ""
